@@ -236,9 +236,7 @@ class Ctx:
             if gate:
                 self.build_ok = False
                 return False, "FORBIDDEN CONSTRUCT\n" + "\n".join(gate)
-            if not os.path.exists(os.path.join(COQ, "Makefile")):
-                subprocess.run(["coq_makefile", "-f", "_CoqProject", "-o", "Makefile"], cwd=COQ, check=True,
-                               capture_output=True)
+            refresh_coqproject()
             # force the property files to be rebuilt so that Print Assumptions is re-run by this check
             for t in targets:
                 if t.startswith("props/"):
@@ -342,6 +340,22 @@ class Ctx:
 
 class CoqEvalError(Exception):
     pass
+
+
+def refresh_coqproject():
+    """_CoqProject lists every .v under gen/ lib/ props/; Makefile is regenerated when the list changes"""
+    files = []
+    for d in ("gen", "lib", "props"):
+        dd = os.path.join(COQ, d)
+        if os.path.isdir(dd):
+            files += sorted("%s/%s" % (d, f) for f in os.listdir(dd) if f.endswith(".v") and not f.startswith("."))
+    text = "-Q . Verif\n-arg -w -arg -all\n" + "\n".join(files) + "\n"
+    p = os.path.join(COQ, "_CoqProject")
+    old = open(p).read() if os.path.exists(p) else ""
+    if old != text or not os.path.exists(os.path.join(COQ, "Makefile")):
+        with open(p, "w") as f:
+            f.write(text)
+        subprocess.run(["coq_makefile", "-f", "_CoqProject", "-o", "Makefile"], cwd=COQ, check=True, capture_output=True)
 
 
 def forbidden_scan():
